@@ -952,6 +952,8 @@ def c08_shapes(thorough):
                           R('U', x, y, body=(Lit('P', z, x), Lit('Q', z, y))), R('W', x, body=(Lit('Q', N(2), x), Lit('P', N(1), x)))], ['P', 'Q'])
   S['all_injected_away'] = ([R('P', N(2)), R('Q', N(1)), R('F', x, body=(Cmp('<', x, N(2)),)), R('T', x, body=(Lit('P', x), Lit('F', x))), R('U', x, y, body=(Lit('P', x), Lit('Q', y), Cmp('<', x, y))),
                              R('W', x, body=(Lit('Q', x), Lit('F', x)))], ['P', 'Q'])
+  S['limited_intermediate'] = ([R('P', x, y, body=(Lit('A', x, y),), limit=0), R('Q', x, body=(Lit('B', x),), limit=7), R('T', x, body=(Lit('P', x, y), Lit('B', y))), R('U', x, body=(Lit('Q', x), Not(Lit('P', x, x)))),
+                                R('W', x, Aggr('Count', y), body=(Lit('B', x), Lit('P', x, y)), distinct=True)], ['P', 'Q'])
   S['functional'] = ([R('P', x, value=y, body=(Lit('A', x, y),)), R('Q', x, value=Bin('+', Call('P', x), N(1)), body=(Lit('B', x),)), R('T', x, Call('Q', x), body=(Lit('B', x),))], ['P', 'Q'])
   if thorough:
     S['three_chain'] = ([R('P', x, y, body=(Lit('A', x, y),)), R('Q', x, y, body=(Lit('P', y, x),)), R('S', x, body=(Lit('Q', x, y), Lit('B', y))), R('T', x, body=(Lit('S', x), Not(Lit('P', x, x))))], ['P', 'Q', 'S'])
